@@ -39,7 +39,7 @@ def kernel_pipeline(res, rng, n_cases):
             res.violation("lowmem:nn_descent", "nn_descent(low_memory=True) and (False) return different arrays", {"cfg": cfg})
 
 
-def api_case(res, rng, metric, kind):
+def api_case(res, rng, metric, kind, with_update=False):
     n = int(rng.choice([30, 120, 400])); k = int(rng.choice([3, 8, 15])); dim = int(rng.choice([3, 6]))
     if kind == "bits":
         dim = 3
@@ -64,11 +64,20 @@ def api_case(res, rng, metric, kind):
             g = idx.neighbor_graph
             idx.prepare()
             a = idx.query(Q, k=min(5, n))
-            out[low] = (g[0].copy(), g[1].copy(), idx._search_graph.indptr.copy(), idx._search_graph.indices.copy(), a[0], a[1])
+            # the graph the index exposes once it has been prepared and queried, and after an append-only update: the two modes
+            # must still agree (a mode-dependent in-place step of prepare() shows here, not right after the build)
+            g2 = idx.neighbor_graph
+            out[low] = (g[0].copy(), g[1].copy(), idx._search_graph.indptr.copy(), idx._search_graph.indices.copy(), a[0], a[1],
+                        g2[0].copy(), g2[1].copy())
+            if with_update and kind != "csr":       # update() is not implemented for sparse data
+                idx.update(xs_fresh=Q[:6])
+                g3 = idx.neighbor_graph
+                out[low] = out[low] + (g3[0].copy(), g3[1].copy())
     except Exception as e:  # noqa
         res.violation("lowmem:%s:%s:exception" % (kind, metric), "%s: %s" % (type(e).__name__, str(e)[:200]), case)
         return
-    names = ["graph indices", "graph distances", "search graph indptr", "search graph indices", "answer indices", "answer distances"]
+    names = ["graph indices", "graph distances", "search graph indptr", "search graph indices", "answer indices", "answer distances",
+             "graph indices after prepare", "graph distances after prepare", "graph indices after update", "graph distances after update"]
     res.case((metric, kind, n, k, dim, tuple(sorted((a, str(b)) for a, b in cfg.items())), np.asarray(L).tobytes()), True,
              sample={**case, "row0_low": out[True][0][0].tolist(), "row0_high": out[False][0][0].tolist()})
     res.count("api_" + kind); res.traces += 1
@@ -120,7 +129,7 @@ def run(res, tier, seed, search):
     for i in range(combos_n):
         metric, kind = COMBOS[(start + i) % len(COMBOS)]
         for r in range(reps):
-            api_case(res, rng, metric, kind)
+            api_case(res, rng, metric, kind, with_update=(r == 0))
     dk.check_blocks(res, rng, 40 if tier == "quick" else 300)
     big_case(res, rng, "dense32")
     big_case(res, rng, "dense32", extra=3)
